@@ -43,6 +43,10 @@ def decodeLeafD (tn s : String) : Except DErr D :=
     match unb64 s with
     | some bs => .ok (.bin bs)
     | none => .error .badValue
+  else if tn = "Timespan" then
+    match parseSpan s with
+    | some ns => .ok (.leaf .ts (printSpan ns))
+    | none => .error .badValue
   else
     match kindOfTypeName tn with
     | some k => .ok (.leaf k.canon s)
@@ -158,6 +162,7 @@ def V.noRes : V → Bool
   | .arr _ vs => noResList vs
   | .sens _ v => v.noRes
   | .obj _ tn _ as => isObjType tn && noResAttrs as
+  | .leaf _ k enc _ => canonLeaf k enc          -- a Timespan payload is the default format of some duration
   | _ => true
 def noResList : List V → Bool
   | [] => true | v :: vs => v.noRes && noResList vs
@@ -259,10 +264,23 @@ theorem plain_trip (c : Cfg) (hb : B64Ok) : ∀ (v : V), Frag c v → Trip c v
         cases h : c.rich with
         | true => rfl
         | false => have := hf.2 h; simp [V.isData] at this
+      have hcan : canonLeaf k enc = true := by simpa [V.noRes] using hf.1
       obtain ⟨h1, h2, h3, h4, h5, h6⟩ := typeName_codec k
       refine trip_scalar c _ (.hash [(.str "__ptype", .str k.typeName), (.str "__pvalue", .str enc)]) ?_ ?_ rfl (fun _ => rfl)
       · simp only [plain, hr, if_true]; exact typed_data _ _ (.str enc) (by simp [dataOf, scD])
-      · simp only [cnv, typed_lookup, typed_pvalue, if_neg h1, if_neg h2, if_neg h3, decodeLeafD, if_neg h4, h5, h6, V.abs]
+      · by_cases hts : k.typeName = "Timespan"
+        · -- the real Timespan codec: the payload parses and prints back to itself
+          have hk : k = .ts := by cases k <;> simp [Kind.typeName] at hts <;> rfl
+          subst hk
+          simp only [canonLeaf, canonSpan] at hcan
+          split at hcan
+          · rename_i ns hp
+            have he : printSpan ns = enc := by simpa using hcan
+            simp only [cnv, typed_lookup, typed_pvalue, if_neg h1, if_neg h2, if_neg h3, decodeLeafD, if_neg h4, if_pos hts,
+              hp, he, V.abs, Kind.canon]
+          · cases hcan
+        · simp only [cnv, typed_lookup, typed_pvalue, if_neg h1, if_neg h2, if_neg h3, decodeLeafD, if_neg h4, if_neg hts,
+            h5, h6, V.abs]
   | .bin id bs, hf => by
       cases hbin : c.bin with
       | true =>
